@@ -59,11 +59,15 @@ const (
 var codeModes = []pattern.Mode{0, ES, ES | EXT, ES | FN, ES | FN | NGS, ES | FN | GLD, ES | NC, ES | EXT | NC, FN, EXT, SH, SH | FN | ES | EXT}
 
 func codeObserve(p string, m pattern.Mode, src string) codeRow {
+	return codeObserveCap(p, m, src, 4)
+}
+
+func codeObserveCap(p string, m pattern.Mode, src string, maxAlpha int) codeRow {
 	var extra []rune
-	if m&FN != 0 {
+	if m&FN != 0 && maxAlpha >= 4 {
 		extra = []rune{'/', '.'}
 	}
-	alpha := hxpat.Alpha(p, 4, m&NC != 0, extra...)
+	alpha := hxpat.Alpha(p, maxAlpha, m&NC != 0, extra...)
 	strs := hxpat.StringsOver(alpha, 3)
 	row := codeRow{P: hxpat.Runes(p), M: int(m), Src: src, Alpha: hxpat.Runes(string(alpha))}
 	obs, rx := hxpat.ObserveRegexp(p, m)
@@ -92,6 +96,64 @@ func codeRows(p, src string, r *rand.Rand) {
 	for i := 0; i < 2; i++ {
 		hx.Emit(codeObserve(p, pattern.Mode(r.IntN(128)), src))
 	}
+}
+
+// sweepForms: the rune as a plain literal (unless it is a glob metacharacter), escaped, quoted by QuoteMeta, and
+// the escaped form embedded between literals.
+func sweepForms(c rune) []string {
+	var out []string
+	if !strings.ContainsRune("*?[\\", c) {
+		out = append(out, string(c))
+	}
+	return append(out, "\\"+string(c), pattern.QuoteMeta(string(c), 0), "a"+pattern.QuoteMeta(string(c), 0)+"b")
+}
+
+type sweepRow struct {
+	P      string `json:"p"` // hex
+	M      int    `json:"m"`
+	Clause string `json:"clause"`
+	Detail string `json:"detail"`
+}
+
+// sweepLaw: for every rune c, every form p of "the literal c" and every one of the 128 modes: Regexp returns an
+// expression that compiles, accepts the literal text, and (EntireString) rejects everything else tried.
+// Emits only failing rows and a summary.
+func sweepLaw() {
+	n := 0
+	for _, c := range hxpat.SweepRunes() {
+		forms := sweepForms(c)
+		for fi, p := range forms {
+			want := string(c)
+			if fi == len(forms)-1 {
+				want = "a" + string(c) + "b"
+			}
+			others := []string{"", want + want, want + "a", "a" + want, "a", "ab", "a" + string(c), string(c) + "b"}
+			for m := pattern.Mode(0); m < 128; m++ {
+				n++
+				obs, rx := hxpat.ObserveRegexp(p, m)
+				if rx == nil {
+					hx.Emit(sweepRow{P: hx.Hex(p), M: int(m), Clause: "literal_does_not_compile_or_errors", Detail: obs.K + " " + obs.Msg})
+					continue
+				}
+				if !rx.MatchString(want) {
+					hx.Emit(sweepRow{P: hx.Hex(p), M: int(m), Clause: "literal_does_not_match_itself", Detail: string(hxpat.RunesToString(obs.Text))})
+					continue
+				}
+				if m&ES != 0 {
+					for _, t := range others {
+						if m&NC != 0 && strings.EqualFold(t, want) {
+							continue
+						}
+						if t != want && rx.MatchString(t) {
+							hx.Emit(sweepRow{P: hx.Hex(p), M: int(m), Clause: "literal_matches_other_string", Detail: t})
+							break
+						}
+					}
+				}
+			}
+		}
+	}
+	hx.Emit(map[string]any{"summary": map[string]int{"cases": n}})
 }
 
 func main() {
@@ -138,6 +200,69 @@ func main() {
 		for i := 0; i < o.N; i++ {
 			codeRows(hxpat.GenTokens(r, 5), "tokens", r)
 		}
+		// bracket expressions: all with <= 1 element, a seed-rotated slice with 2 (thorough: all) and with 3 (thorough only)
+		focus := []pattern.Mode{ES, ES | EXT | NC, ES | FN}
+		for l := 0; l <= 3; l++ {
+			nb := hxpat.NumBrackets(l)
+			for i := 0; i < nb; i++ {
+				if l == 2 && o.Tier != "thorough" && uint64(i%32) != o.Seed%32 {
+					continue
+				}
+				if l == 3 && (o.Tier != "thorough" || uint64(i%16) != o.Seed%16) {
+					continue
+				}
+				p := hxpat.Bracket(l, i)
+				for _, m := range focus {
+					hx.Emit(codeObserve(p, m, "brackets"))
+				}
+				hx.Emit(codeObserve(p, pattern.Mode(r.IntN(128)), "brackets"))
+			}
+		}
+		// class names (valid, substrings, misspellings): a seed-rotated eighth (thorough: all)
+		for i, name := range hxpat.ClassNames() {
+			if o.Tier != "thorough" && uint64(i%8) != o.Seed%8 {
+				continue
+			}
+			for _, p := range hxpat.ClassPatterns(name) {
+				hx.Emit(codeObserve(p, ES, "classes"))
+				hx.Emit(codeObserve(p, pattern.Mode(r.IntN(128)), "classes"))
+			}
+		}
+		// every ASCII rune (and a few multi-byte) as literal, escaped, and quoted by QuoteMeta
+		for _, c := range hxpat.SweepRunes() {
+			for _, p := range sweepForms(c) {
+				hx.Emit(codeObserveCap(p, ES, "sweep", 2))
+				hx.Emit(codeObserveCap(p, pattern.Mode(r.IntN(128)), "sweep", 2))
+			}
+		}
+	case "brackets":
+		for l := 0; l <= 3; l++ {
+			nb := hxpat.NumBrackets(l)
+			for i := 0; i < nb; i++ {
+				if l == 2 && o.Tier != "thorough" && uint64(i%4) != o.Seed%4 {
+					continue
+				}
+				if l == 3 && o.Tier != "thorough" {
+					continue
+				}
+				hx.Emit(searchObserve(hxpat.Bracket(l, i), "brackets"))
+			}
+		}
+		for _, name := range hxpat.ClassNames() {
+			for _, p := range hxpat.ClassPatterns(name) {
+				hx.Emit(searchObserve(p, "classes"))
+			}
+		}
+		for _, c := range hxpat.SweepRunes() {
+			if c == 0x1f {
+				continue // the oracle file's string separator
+			}
+			for _, p := range sweepForms(c) {
+				hx.Emit(searchObserve(p, "sweep"))
+			}
+		}
+	case "sweep":
+		sweepLaw()
 	case "codelist":
 		r := hx.Rand(o.Seed, 1700)
 		for _, p := range o.Args {
